@@ -71,6 +71,11 @@ def adversarial(rng):
                     "seed": rng.randrange(10 ** 6),
                     "forced_neighbours": [("remove#%d" % i0, [list(r) for j, r in enumerate(big) if j != i0]),
                                           ("add(0, 0, 0, 0)", [list(r) for r in big] + [[0, 0, 0, 0]])]})
+    # AdaGrid with a target attribute (step 1 then measures the whole downward closure) and with explicit budget splits
+    for targets, split in ((["c"], None), (["c"], [1, 2, 1]), ([], [1, 1, 2]), (["b"], [2, 3, 5])):
+        p = {"epsilon": 1.0, "delta": 1e-6, "targets": targets, "split_strategy": split, "threshold": 5.0}
+        out.append({"mech": "AdaGrid", "params": p, "attrs": ["a", "b", "c"], "sizes": [2, 3, 2],
+                    "records": [[rng.randrange(2), rng.randrange(3), rng.randrange(2)] for _ in range(6)], "seed": rng.randrange(10 ** 6)})
     # AIM with a workload that leaves an attribute uncovered (one-way releases are due only for covered attributes)
     for wl in ([("a", "b")], [("b", "c")]):
         p = {"epsilon": 1.0, "delta": 1e-6, "rounds": 4, "workload": wl}
